@@ -216,7 +216,7 @@ func (r *Runner) RunOne(j *Job) *Result {
 			return res
 		}
 		exe = r.RaceExe
-		env = append(env, "GORACE=halt_on_error=0 log_path="+raceLog+" history_size=2")
+		env = append(env, "GORACE=halt_on_error=0 exitcode=0 log_path="+raceLog+" history_size=2")
 	}
 	stderrPath := filepath.Join(j.Dir, "stderr.txt")
 	stderrF, _ := os.Create(stderrPath)
